@@ -168,8 +168,6 @@ def chunk_model_check(fm, data, leaves, rgs, fn=None):
             if not cells:
                 continue
             pages, start, end = pqfile.chunk_pages(data, m)
-            if l["type"] == 0 and not any(p["type"] == 2 for p in pages):
-                continue      # BOOLEAN values (bit-packed PLAIN / RLE) are not in the writer chunk model; boolean CATEGORIES are
             codec = m.codec or 0
             v2 = any(p["type"] == 3 for p in pages)
             dps = [p for p in pages if p["type"] in (0, 3)]
